@@ -59,7 +59,8 @@ Match(a) ==
       [] a.op = "demote_block" -> DemoteBlocks(a.names)
       [] a.op = "rename_blocks" -> RenameBlocks(a.m)
       [] a.op = "reorder" -> Reorder(a.bp, a.cp, a.rev)
-      [] a.op = "minc" -> Minc(a.fr, a.sel)
+      [] a.op = "minc" -> Minc(a.fr, a.sel, a.sc)
+      [] a.op = "embed" -> Embed(a.h, a.n, a.r, a.k)
       [] OTHER -> FALSE
 
 TraceNext ==
@@ -100,7 +101,8 @@ StepFailing ==
     IF ~Consistent THEN {}
     ELSE (IF C08_RenameKeeps THEN {} ELSE {"C08_RenameKeeps"}) \cup
          (IF C09_PhysUnchanged THEN {} ELSE {"C09_PhysUnchanged"}) \cup
-         (IF C09_Minc THEN {} ELSE {"C09_Minc"})
+         (IF C09_Minc THEN {} ELSE {"C09_Minc"}) \cup
+         (IF C09_Embed THEN {} ELSE {"C09_Embed"})
 
 ReportStep ==
     LET f == StepFailing IN
